@@ -70,6 +70,13 @@ def main():
   meta["caught_by"] = [c for c, r in meta.get("checks", {}).items() if r["exit"] == 1]
   dest = os.path.join(VERIF, "seeded", f"{prop}-{k}")
   os.makedirs(dest, exist_ok=True)
+  try:      # keep the record of an earlier miss and of what was strengthened
+    old = json.load(open(os.path.join(dest, "meta.json")))
+    for key in ("caught_by_initially", "strengthening"):
+      if key in old:
+        meta[key] = old[key]
+  except (OSError, ValueError):
+    pass
   for f in ("patch.diff", "demo.py", "notes.txt"):
     if os.path.isfile(os.path.join(seed, f)):
       shutil.copy(os.path.join(seed, f), os.path.join(dest, f))
